@@ -3,6 +3,7 @@ package checks
 import (
 	"encoding/json"
 	"fmt"
+	"github.com/consensys/gnark-crypto/ecc/bn254"
 	"math/big"
 
 	"github.com/consensys/gnark/backend/groth16"
@@ -89,12 +90,13 @@ type C10 struct {
 	base
 	g  gsys
 	sp *gtier.ShortPoints
+	bd []bn254.G1Affine // curve points with x at the edges of the base field's range (gtier.BoundaryG1)
 }
 
 func init() { register(&C10{base: base{id: "C10", level: "exploration"}}) }
 
 func (c *C10) Rule() string {
-	return "one run = either one real Groth16 proof of a fresh valid batch (prover randomness drawn from the tape through the seeded crypto/rand seam) or 40 forged proofs assembled from small multiples of the curve generators searched for coordinates with leading zero bytes (incl. (1,2)); each proof is encoded by the repository, decoded by our own decoder (compared coordinate by coordinate with the gnark proof struct in EVM order), decoded by the repository (compared with the original) and verified before and after; evaluations = proofs round-tripped; non-trivial = proof with at least one coordinate shorter than 32 bytes; distinct = pattern of which of the 8 coordinates are short and by how many bytes; every fifth run is a World L run: 2..5 caller tasks encode/decode their own forged proofs interleaved by the tape at every statement of the instrumented codec"
+	return "one run = either one real Groth16 proof of a fresh valid batch (prover randomness drawn from the tape through the seeded crypto/rand seam) or 40 forged proofs assembled from small multiples of the curve generators searched for coordinates with leading zero bytes (incl. (1,2)), a quarter of them with A or C replaced by a genuine curve point whose x lies at an edge of the base field's range (just below q, in [r, q), around r, around 2^253); each proof is encoded by the repository, decoded by our own decoder (compared coordinate by coordinate with the gnark proof struct in EVM order), decoded by the repository (compared with the original) and verified before and after; evaluations = proofs round-tripped; non-trivial = proof with at least one coordinate shorter than 32 bytes; distinct = pattern of which of the 8 coordinates are short and by how many bytes; every fifth run is a World L run: 2..5 caller tasks encode/decode their own forged proofs interleaved by the tape at every statement of the instrumented codec"
 }
 func (c *C10) Assumptions() []string {
 	return []string{"EVM order A.x A.y B.x1 B.x0 B.y1 B.y0 C.x C.y and 0x-hex rendering are taken from the property text", "ground-truth coordinates are read by reflection from gnark's internal BN254 proof struct"}
@@ -122,6 +124,10 @@ func (c *C10) Init(tier string, worker, nworkers int, seed uint64) error {
 	}
 	if c.sp == nil {
 		c.sp = gtier.FindShortPoints(6000, 2500)
+		c.bd = gtier.BoundaryG1()
+		if len(c.bd) < 8 {
+			return fmt.Errorf("boundary point search found only %d points", len(c.bd))
+		}
 	}
 	return nil
 }
@@ -228,6 +234,16 @@ func (c *C10) Run(x *engine.Ctx) *engine.Violation {
 		}
 		if t.Chance(1, 12) {
 			cc = a // A and C the same point
+		}
+		// coordinates at the edges of the base field's range (x just below q, x in [r, q), around 2^253):
+		// every such point is a genuine curve point, hence a legal A or C of a proof
+		if t.Chance(1, 4) {
+			a = c.bd[t.Pick(len(c.bd))]
+			x.S.Count("fault:forged-proof-with-boundary-coordinate")
+		}
+		if t.Chance(1, 4) {
+			cc = c.bd[t.Pick(len(c.bd))]
+			x.S.Count("fault:forged-proof-with-boundary-coordinate")
 		}
 		p, err := gtier.FromCoordinates(gtier.CoordsOfPoints(a, b, cc))
 		if err != nil {
